@@ -3,12 +3,29 @@
 
 mod checks;
 mod server_error;
-mod sim;
 mod simclock;
-mod store;
-#[allow(clippy::all)]
-mod raft {
-    include!(concat!(env!("OUT_DIR"), "/raft_gen.rs"));
+/// the simulator over /repo's consensus core
+mod cur {
+    #[allow(clippy::all)]
+    pub mod raft {
+        include!(concat!(env!("OUT_DIR"), "/raft_gen.rs"));
+    }
+    #[path = "../sim.rs"]
+    pub mod sim;
+    #[path = "../store.rs"]
+    pub mod store;
+}
+/// the same simulator over the recorded baseline of the consensus core (baseline/raft.rs)
+#[allow(dead_code)]
+mod base {
+    #[allow(clippy::all)]
+    pub mod raft {
+        include!(concat!(env!("OUT_DIR"), "/raft_base_gen.rs"));
+    }
+    #[path = "../sim.rs"]
+    pub mod sim;
+    #[path = "../store.rs"]
+    pub mod store;
 }
 
 fn main() {
